@@ -362,7 +362,7 @@ func correspondence(o *hx.Opts, rng *rand.Rand, res *hx.Result, cw *hx.CaseWrite
 		}
 		cw.Add(func(id int) string { return strings.Replace(term, "@ID@", hx.N(id), 1) }, map[string]interface{}{"kind": kind, "case": js})
 	}
-	for i, n := 0, o.Count(300, 3000); i < n; i++ {
+	for i, n := 0, o.Count(240, 3000); i < n; i++ {
 		t, js, nt := genSort(rng)
 		add("sort", t, js, nt)
 	}
